@@ -2,6 +2,365 @@
 
 package main
 
-import "github.com/theparanoids/ysshra/internal/zzverif/ev"
+import (
+	"bytes"
+	"fmt"
+	"sort"
+	"strings"
 
-func checkC07(c *ev.Ctx) { c.Cap("not implemented") }
+	"github.com/theparanoids/ysshra/internal/zzverif/bfs"
+	"github.com/theparanoids/ysshra/internal/zzverif/ev"
+)
+
+// c07World: real shim + reference model of the *intended* contents (what operations added to / removed from the
+// underlying agent and the in-memory table, independently of any purge).
+type c07World struct {
+	w        *shimWorld
+	intUA    map[string]bool
+	intMem   map[string]bool
+	thorough bool
+	c        *ev.Ctx
+}
+
+func newC07World(c *ev.Ctx, root string) bfs.World {
+	noUp, init := parseRoot(root)
+	x := &c07World{w: newShimWorld(noUp, init, nil), intUA: map[string]bool{}, intMem: map[string]bool{}, thorough: c.Thorough(), c: c}
+	for _, n := range init {
+		x.intUA[n] = true
+	}
+	return x
+}
+
+func (x *c07World) Init() []bfs.Finding { return nil }
+func (x *c07World) Close() { x.w.Close() }
+
+func setKeys(m map[string]bool) string {
+	var s []string
+	for k, v := range m {
+		if v {
+			s = append(s, k)
+		}
+	}
+	sort.Strings(s)
+	return strings.Join(s, ",")
+}
+
+func (x *c07World) Key() string {
+	return fmt.Sprintf("%s|intUA=%s|intMem=%s", x.w.baseKey(), setKeys(x.intUA), setKeys(x.intMem))
+}
+
+func (x *c07World) Enabled() []bfs.Op {
+	var ops []bfs.Op
+	o := func(n string, args ...string) {
+		for _, a := range args {
+			ops = append(ops, bfs.Op{Name: n, Arg: a})
+		}
+	}
+	ops = append(ops, bfs.Op{Name: "List"}, bfs.Op{Name: "Signers"})
+	o("Add", "K1", "c.past", "c.cur", "c.lapsing", "c.forever", "c.future", "c.zero", "c.edge", "c.vb63", "c.va63", "K2", "c2.past")
+	o("AddHardCert", "h1", "h1x", "h3", "h1past", "h2")
+	o("Sign", "K1", "c.cur", "c.past", "c.lapsing", "h1", "h1x", "c.forever", "c.future")
+	o("Remove", "K1", "c.cur", "c.forever", "h1", "c.lapsing")
+	ops = append(ops, bfs.Op{Name: "RemoveAll"})
+	o("URemove", "K1", "K2", "c.cur")
+	if x.w.ua.Ring.Locked {
+		ops = append(ops, bfs.Op{Name: "UUnlock"})
+	} else {
+		ops = append(ops, bfs.Op{Name: "ULock"})
+	}
+	if x.w.ticks1 < 2 {
+		ops = append(ops, bfs.Op{Name: "Tick1m"})
+	}
+	if x.w.ticksH < 1 {
+		ops = append(ops, bfs.Op{Name: "Tick1h"})
+	}
+	return ops
+}
+
+func (x *c07World) Apply(op bfs.Op) (fs []bfs.Finding) {
+	add := func(key, desc string) { fs = append(fs, bfs.Finding{Key: "C07:" + key, Desc: desc}) }
+	w := x.w
+	uaLocked := w.ua.Ring.Locked
+	var reported []*ident // what the underlying agent reports to a list request issued now
+	if !uaLocked {
+		for _, b := range w.uaBlobs() {
+			if id := identsBy[string(b)]; id != nil {
+				reported = append(reported, id)
+			}
+		}
+	}
+	uaBefore := w.ua.Ring.Canon(nameOf)
+	r := w.exec(op)
+	if r.panic != "" {
+		add("panic:"+ev.PanicSite(r.panic), r.panic)
+		return
+	}
+	now := w.clock
+	id := idents[op.Arg]
+	switch op.Name {
+	case "Add":
+		if r.err == nil {
+			x.intUA[op.Arg] = true
+		}
+		return
+	case "AddHardCert":
+		if r.err == nil {
+			x.intMem[op.Arg] = true
+		}
+		return
+	case "Remove":
+		if r.err == nil {
+			delete(x.intMem, op.Arg)
+			if !uaLocked {
+				delete(x.intUA, op.Arg)
+			}
+		} else {
+			x.resyncMem()
+		}
+		return
+	case "RemoveAll":
+		if r.err == nil {
+			x.intMem, x.intUA = map[string]bool{}, map[string]bool{}
+		} else {
+			x.resyncMem()
+		}
+		return
+	case "URemove":
+		if r.err == nil {
+			delete(x.intUA, op.Arg)
+		}
+		return
+	case "ULock", "UUnlock", "Tick1m", "Tick1h":
+		return
+	}
+	// List / Signers / Sign: the purge must have happened
+	if op.Name != "Sign" && r.err != nil {
+		x.c.Outcome(op.Name + "/error")
+		x.resyncAll()
+		return
+	}
+	// (2) underlying agent: exactly intended ∩ (plain keys ∪ in-window certificates)
+	expUA := map[string]bool{}
+	purgedUA := 0
+	for n := range x.intUA {
+		i := idents[n]
+		if i.cert == nil || inWindow(i.va, i.vb, now) {
+			expUA[n] = true
+		} else {
+			purgedUA++
+		}
+	}
+	if uaLocked {
+		expUA = x.intUA // a locked underlying agent reports nothing and cannot be purged
+		if w.ua.Ring.Canon(nameOf) != uaBefore {
+			add("underlying-changed-while-locked", "underlying agent changed although it was locked: "+uaBefore+" -> "+w.ua.Ring.Canon(nameOf))
+		}
+	} else {
+		got := map[string]bool{}
+		for _, b := range w.uaBlobs() {
+			got[nameOf(b)] = true
+		}
+		for n := range expUA {
+			if !got[n] {
+				add("underlying:lost:"+kind(n), fmt.Sprintf("%s removed %s from the underlying agent although it is %s", op.Name, n, why(n, now)))
+			}
+		}
+		for n := range got {
+			if !expUA[n] {
+				add("underlying:not-purged:"+kind(n), fmt.Sprintf("after %s the underlying agent still holds %s, which is outside its validity window at T0%+ds", op.Name, n, now.Unix()-T0.Unix()))
+			}
+		}
+	}
+	// (3) in-memory table
+	memNow := map[string]bool{}
+	for _, b := range w.memBlobs() {
+		memNow[nameOf(b)] = true
+	}
+	hasKey := func(set []*ident, keyBlob []byte) bool {
+		for _, y := range set {
+			if bytes.Equal(y.keyBlob, keyBlob) {
+				return true
+			}
+		}
+		return false
+	}
+	var post []*ident
+	if !uaLocked {
+		for n := range expUA {
+			post = append(post, idents[n])
+		}
+	}
+	purgedMem, orphaned := 0, 0
+	for n := range x.intMem {
+		h := idents[n]
+		valid := inWindow(h.va, h.vb, now)
+		mustDrop := !valid || (len(reported) > 0 && !hasKey(reported, h.keyBlob))
+		mustKeep := valid && (len(reported) == 0 || hasKey(post, h.keyBlob))
+		if !valid {
+			purgedMem++
+		} else if mustDrop {
+			orphaned++
+		}
+		switch {
+		case mustDrop && memNow[n] && !valid:
+			add("memory:not-purged", fmt.Sprintf("after %s the in-memory table still holds %s, outside its validity window", op.Name, n))
+		case mustDrop && memNow[n]:
+			add("memory:orphan-kept", fmt.Sprintf("after %s the in-memory table still holds %s although the underlying agent reported a non-empty list %v without its key", op.Name, n, identNames(reported)))
+		case mustKeep && !memNow[n] && len(reported) == 0:
+			add("memory:dropped-on-empty-list", fmt.Sprintf("%s dropped in-memory %s although the underlying agent reported an empty list (possibly locked)", op.Name, n))
+		case mustKeep && !memNow[n]:
+			add("memory:lost:"+kind(n), fmt.Sprintf("%s dropped in-memory %s although it is in its window and its key is held (%v)", op.Name, n, identNames(post)))
+		}
+	}
+	for n := range memNow {
+		if !x.intMem[n] {
+			add("memory:spurious", fmt.Sprintf("in-memory table holds %s which no operation added", n))
+		}
+	}
+	if purgedUA+purgedMem+orphaned > 0 {
+		x.c.Nontrivial(fmt.Sprintf("%s|%s|%s|%d", op.Name, setKeys(x.intUA), setKeys(x.intMem), now.Unix()))
+		x.c.Count("listings_that_purged", 1)
+		if purgedUA+purgedMem >= 2 {
+			x.c.Count("listings_that_purged_2plus", 1)
+		}
+		if orphaned > 0 {
+			x.c.Count("listings_that_dropped_orphans", 1)
+		}
+	}
+	x.c.Outcome(fmt.Sprintf("%s/purgedUA=%d/purgedMem=%d/orphans=%d/ualocked=%v", op.Name, purgedUA, purgedMem, orphaned, uaLocked))
+	// (1)+(4) listing contents
+	if op.Name == "List" || op.Name == "Signers" {
+		var blobs [][]byte
+		if op.Name == "List" {
+			blobs = keyBlobs(r.keys)
+		} else {
+			blobs = signerBlobs(r.signers)
+		}
+		listed := map[string]int{}
+		for _, b := range blobs {
+			n := nameOf(b)
+			listed[n]++
+			if i := identsBy[string(b)]; i != nil && i.cert != nil && !inWindow(i.va, i.vb, now) {
+				add("listing:out-of-window:"+kind(n), fmt.Sprintf("%s returned %s, whose window [%d,%d] does not contain now=%d", op.Name, n, i.va, i.vb, now.Unix()))
+			}
+		}
+		if len(fs) == 0 {
+			want := map[string]int{}
+			if !uaLocked {
+				for n := range expUA {
+					want[n]++
+				}
+			}
+			for n := range memNow {
+				want[n]++
+			}
+			for n, k := range want {
+				if listed[n] < k {
+					add("listing:missing:"+kind(n), fmt.Sprintf("%s does not return %s (%s); returned %v", op.Name, n, why(n, now), names(blobs)))
+				}
+			}
+			for n, k := range listed {
+				if want[n] < k {
+					add("listing:unexpected", fmt.Sprintf("%s returned %s x%d, expected x%d", op.Name, n, k, want[n]))
+				}
+			}
+		}
+	} else { // Sign
+		isCert := id.cert != nil
+		if isCert && !inWindow(id.va, id.vb, now) && r.err == nil {
+			add("sign:with-out-of-window:"+kind(op.Arg), fmt.Sprintf("Sign(%s) succeeded although the certificate is outside its window", op.Arg))
+		}
+		if r.err == nil && r.sig != nil {
+			if verr := id.pub.Verify(r.data, r.sig); verr != nil {
+				add("sign:bad-signature", fmt.Sprintf("Sign(%s) returned a signature that does not verify: %v", op.Arg, verr))
+			}
+		}
+		present := (!uaLocked && expUA[op.Arg]) || (!uaLocked && memNow[op.Arg] && hasKey(post, id.keyBlob) && hasPlain(post, id.keyBlob))
+		if present && r.err != nil {
+			add("sign:valid-identity-fails:"+kind(op.Arg), fmt.Sprintf("Sign(%s) failed (%v) although the identity is held and %s", op.Arg, r.err, why(op.Arg, now)))
+		}
+	}
+	// the purge has happened: intended contents shrink accordingly
+	if !uaLocked {
+		x.intUA = expUA
+	}
+	x.intMem = map[string]bool{}
+	for n := range memNow {
+		x.intMem[n] = true
+	}
+	return
+}
+
+func hasPlain(set []*ident, keyBlob []byte) bool {
+	for _, y := range set {
+		if y.cert == nil && bytes.Equal(y.blob, keyBlob) {
+			return true
+		}
+	}
+	return false
+}
+
+func (x *c07World) resyncMem() {
+	now := map[string]bool{}
+	for _, b := range x.w.memBlobs() {
+		n := nameOf(b)
+		if x.intMem[n] {
+			now[n] = true
+		}
+	}
+	x.intMem = now
+}
+
+func (x *c07World) resyncAll() {
+	x.resyncMem()
+	ua := map[string]bool{}
+	for _, b := range x.w.uaBlobs() {
+		if n := nameOf(b); x.intUA[n] {
+			ua[n] = true
+		}
+	}
+	x.intUA = ua
+}
+
+func identNames(l []*ident) []string {
+	var s []string
+	for _, i := range l {
+		s = append(s, i.name)
+	}
+	sort.Strings(s)
+	return s
+}
+
+// kind abbreviates an identity to its class so that violation keys stay structural.
+func kind(n string) string {
+	i := idents[n]
+	if i == nil || i.cert == nil {
+		return "plain-key"
+	}
+	return n
+}
+
+func why(n string, now interface{ Unix() int64 }) string {
+	i := idents[n]
+	if i.cert == nil {
+		return "a plain key"
+	}
+	return fmt.Sprintf("inside its validity window [%d,%d] at now=%d", i.va, i.vb, now.Unix())
+}
+
+func checkC07(c *ev.Ctx) {
+	setupFixtures()
+	c.Rule("E1 BFS over histories of the real shimagent.Server with a virtual clock: Add(12 identities incl. past/current/future/lapsing/edge/zero/forever/2^63 windows), AddHardCert(5), Remove(5), RemoveAll, List, Signers, Sign(8), direct removals and lock/unlock on the underlying agent, clock ticks (+1min x2, +1h x1); roots = both upstream modes x 4 initial contents; oracle against the intended contents. non-trivial = listing/signing transition that purged or orphan-dropped something; distinct by (operation, intended sets, clock)")
+	c.Assume("certificate validity reference: va <= now <= vb after clamping to 2^63-1", "mem certificates whose key is held only inside an out-of-window certificate are don't-care for one listing (either outcome accepted)")
+	var roots []string
+	for _, mode := range []string{"up", "noup"} {
+		for _, init := range []string{"", "K1,c.cur,c.past", "K1,K2,c.lapsing,c2.past", "c.past,K1,c.zero,c.cur,c2.past,K2,c.va63"} {
+			roots = append(roots, mode+":"+init)
+		}
+	}
+	depth := 4
+	if c.Thorough() {
+		depth = 6
+	}
+	runBFS(c, func(root string) bfs.World { return newC07World(c, root) }, roots, depth, 0)
+}
